@@ -456,8 +456,15 @@ func (r *fieldSelectionRewriter) preserveTypeNameSelection(selectionSetInfo sele
 	}
 
 	// copying the original selection preserves its directives (e.g. defer) and
-	// records provenance automatically via the OnCopyField hook
-	*selectionRefs = append(*selectionRefs, r.operation.CopySelection(selectionSetInfo.typenameSelectionRef))
+	// records provenance automatically via the OnCopyField hook.
+	// There could be more than one __typename selection (different aliases, or the client's
+	// __typename next to the __internal_typename placeholder) - all of them have to be preserved.
+	for _, field := range selectionSetInfo.fields {
+		if field.fieldName != typeNameField {
+			continue
+		}
+		*selectionRefs = append(*selectionRefs, r.operation.CopySelection(field.fieldSelectionRef))
+	}
 }
 
 func (r *fieldSelectionRewriter) fieldTypeNameFromUpstreamSchema(fieldRef int, enclosingTypeName ast.ByteSlice) (typeName string, ok bool) {
